@@ -211,6 +211,8 @@ pub struct Sim {
     pub acked: Vec<bool>,
     /// was in the ready set at some point
     pub was_ready: Vec<bool>,
+    /// how often the job entered a ready-to-run state (transition log)
+    pub ready_entries: Vec<u8>,
     pub aborted: bool,
     pub startup_done: bool,
     /// engine returned an unexpected error / panicked: stop exploring this path
@@ -271,6 +273,7 @@ impl Sim {
             offered_now: vec![],
             acked: vec![false; n],
             was_ready: vec![false; n],
+            ready_entries: vec![0; n],
             aborted: false,
             startup_done: false,
             dead: false,
@@ -296,6 +299,7 @@ impl Sim {
             offered_now: vec![],
             acked: self.acked.clone(),
             was_ready: self.was_ready.clone(),
+            ready_entries: self.ready_entries.clone(),
             aborted: self.aborted,
             startup_done: self.startup_done,
             dead: self.dead,
